@@ -303,7 +303,15 @@ impl MachineAdapter for TestRunnerAdapter {
         source_path: &str,
         breakpoints: Vec<MachineBreakpoint>,
     ) -> MosResult<Vec<MachineValidatedBreakpoint>> {
-        *self.breakpoints.lock().unwrap() = breakpoints.clone();
+        // (these replace the breakpoints of this source, not those of the other ones)
+        self.breakpoints_by_source
+            .insert(source_path.to_string(), breakpoints.clone());
+        *self.breakpoints.lock().unwrap() = self
+            .breakpoints_by_source
+            .iter()
+            .sorted_by_key(|(path, _)| (*path).clone())
+            .flat_map(|(_, bps)| bps.clone())
+            .collect();
         Ok(breakpoints
             .into_iter()
             .enumerate()
